@@ -75,6 +75,9 @@ HLISTS = {
     'lookup_exc': [('LookupError',), ('Exception',)],
     'e3': [('Err3',)],
     'none': [],
+    'bare_e1': [(), ('Err1',)],
+    'e3_bare_e1': [('Err3',), (), ('Err1',)],
+    'bare_key': [(), ('KeyError',)],
 }
 
 
@@ -117,7 +120,7 @@ for _hl in HLISTS:
         if _hl == 'none' and not _he:
             continue
         for _syn in ('dtml', 'ssi'):
-            if _syn == 'ssi' and _hl not in ('e3_e2_e1', 'e2_bare'):
+            if _syn == 'ssi' and _hl not in ('e3_e2_e1', 'e2_bare', 'e3_bare_e1'):
                 continue
             TT['%s_%s_%s' % (_hl, 'else' if _he else 'noelse', _syn)] = (_hl, _he, cooked(build_try(_hl, _he, _syn)))
 
@@ -371,3 +374,97 @@ ASSUMES = ['stubs never raise KeyError(<name being looked up>)']
 OBLIGATIONS.append(Ob('multiple_bases', ob_multiple_bases, ['0 <= k <= 3'], timeout=tier(100, 300), data='which exception the body raises', selectors='exception classes with two bases; handlers naming a secondary base or a base of it'))
 OBLIGATIONS.append(Ob('error_vars_scope', ob_error_vars_scope, ['0 <= k <= 4', '0 <= hk <= 4'], timeout=tier(100, 300), data='class raised by the body, class raised by the inner handler',
                       selectors='nested try: inner handler raises, outer bare handler; error_type/error_value after the blocks'))
+
+
+# ---------------------------------------------------------------- wave 3
+from crosshair.tracers import NoTracing     # noqa: E402
+
+SRC_RAISE_EXPR = 'a<dtml-raise expr="cls">M</dtml-raise>z'
+SRC_RAISE_TRY2 = '<dtml-try><dtml-raise expr="cls">M</dtml-raise><dtml-except Err2>2<dtml-except KeyError>K<dtml-except>B:<dtml-var error_type></dtml-try>'
+
+
+def _fresh(src):
+    with NoTracing():
+        t = HTML(src)
+        t.cook()
+    return t
+
+
+def ob_raise_per_render(d1: int, d2: int, d3: int) -> bool:
+    """the exception class of <dtml-raise expr=...> is computed at every rendering: three renderings of one fresh template, each
+    with the class variable undefined (0) or bound to Err2 / KeyError / Err1; no rendering may be influenced by an earlier one"""
+    t = _fresh(SRC_RAISE_EXPR)
+    t2 = _fresh(SRC_RAISE_TRY2)
+    for d in (d1, d2, d3):
+        ns = {}
+        if d == 1:
+            ns['cls'] = Err2
+        elif d == 2:
+            ns['cls'] = KeyError
+        elif d == 3:
+            ns['cls'] = Err1
+        try:
+            t(**ns)
+            return False
+        except Exception as e:
+            if d == 0:
+                # the expression cannot be evaluated: some error escapes, but not one of the classes used in other renderings
+                if type(e) in (Err1, Err2, KeyError) and e.args == ('M',):
+                    return False
+            elif type(e) is not ns['cls'] or e.args != ('M',):
+                return False
+        out = t2(**ns)
+        if d == 1 and out != '2':
+            return False
+        if d == 2 and out != 'K':
+            return False
+        if d == 3 and out != 'B:Err1':
+            return False
+        if d == 0 and (out == '2' or out == 'K' or out == 'B:Err1'):
+            return False
+    return True
+
+
+OBLIGATIONS.append(Ob('raise_per_render', ob_raise_per_render, ['0 <= d1 <= 3', '0 <= d2 <= 3', '0 <= d3 <= 3'], timeout=tier(150, 400),
+                      data='-', selectors='three renderings of one fresh <dtml-raise expr="cls"> template; per rendering cls is undefined / Err2 / KeyError / Err1',
+                      stubs='templates compiled untraced inside the obligation (fresh objects per path)'))
+
+T_RET_RAISE = {
+    'raise_body': cooked('a<dtml-raise KeyError>m<dtml-if go><dtml-return rv></dtml-if>n</dtml-raise>z'),
+    'raise_body_in_try': cooked('a<dtml-try><dtml-raise KeyError>m<dtml-if go><dtml-return rv></dtml-if>n</dtml-raise><dtml-except>caught</dtml-try>z'),
+    'raise_expr_body': cooked('a<dtml-raise expr="cls">m<dtml-if go><dtml-return rv></dtml-if>n</dtml-raise>z'),
+    'in_else_body': cooked('a<dtml-in seq><dtml-else><dtml-if go><dtml-return rv></dtml-if>e</dtml-in>z'),
+    'unless_body': cooked('a<dtml-unless no><dtml-if go><dtml-return rv></dtml-if>u</dtml-unless>z'),
+    'elif_body': cooked('a<dtml-if no>n<dtml-elif go><dtml-return rv><dtml-else>e</dtml-if>z'),
+}
+
+
+def make_return_from(key):
+    t = T_RET_RAISE[key]
+
+    def ob(go: bool, rv: int) -> bool:
+        """dtml-return ends the whole call from ANY nesting depth - also from inside the body of a raise tag, an in-else, unless, elif"""
+        try:
+            out = t(go=go, rv=rv, cls=Err2, seq=[], no=0)
+        except KeyError as e:
+            return key == 'raise_body' and not go and e.args == ('mn',)
+        except Err2 as e:
+            return key == 'raise_expr_body' and not go and e.args == ('mn',)
+        if go:
+            return out is rv
+        if key == 'raise_body_in_try':
+            return out == 'acaughtz'
+        if key == 'in_else_body':
+            return out == 'aez'
+        if key == 'unless_body':
+            return out == 'auz'
+        if key == 'elif_body':
+            return out == 'aez'
+        return False
+    ob.__name__ = 'ob_return_from_' + key
+    return ob
+
+
+for _k in T_RET_RAISE:
+    OBLIGATIONS.append(Ob('return_from_' + _k, make_return_from(_k), [], timeout=tier(100, 300), data='go bit, returned value rv (unbounded int)',
+                          selectors='dtml-return inside ' + _k.replace('_', ' ')))
